@@ -89,6 +89,10 @@ func registerHTTPModels(in *Interp) {
 		return p.stubs["http.k"]
 	}
 	vxExtra["vxExpectedText"] = func(in *Interp, p *Path, fr *Frame, a []Val, s ssa.CallInstruction) Val { return concStr("TEXT") }
+	vxExtra["vxFinalTrailingData"] = func(in *Interp, p *Path, fr *Frame, a []Val, s ssa.CallInstruction) Val {
+		p.stubs["final.trailing"] = a[0]
+		return nil
+	}
 	vxExtra["vxAPIBase"] = func(in *Interp, p *Path, fr *Frame, a []Val, s ssa.CallInstruction) Val { return concStr("http://vx") }
 	vxExtra["vxStopServer"] = noop
 	vxExtra["vxAsciiText"] = func(in *Interp, p *Path, fr *Frame, a []Val, s ssa.CallInstruction) Val {
@@ -180,6 +184,27 @@ func registerHTTPModels(in *Interp) {
 		}
 		return TupleVal{bytesOf("BODY:" + strconv.Itoa(bm.k)), IfaceVal{}}
 	}
+	I["strings.NewReader"] = func(in *Interp, p *Path, fr *Frame, a []Val, s ssa.CallInstruction) Val {
+		return &Pointer{model: &bytesReader{data: strToSlice(a[0].(StringVal))}}
+	}
+	I["encoding/json.NewDecoder"] = func(in *Interp, p *Path, fr *Frame, a []Val, s ssa.CallInstruction) Val {
+		return &Pointer{model: &gobDec{r: a[0]}}
+	}
+	I["(*encoding/json.Decoder).DisallowUnknownFields"] = noop
+	I["(*encoding/json.Decoder).Decode"] = func(in *Interp, p *Path, fr *Frame, a []Val, s ssa.CallInstruction) Val {
+		dec := a[0].(*Pointer).model.(*gobDec)
+		rv, _ := dec.r.(IfaceVal)
+		pt, _ := rv.v.(*Pointer)
+		br, ok := pt.model.(*bytesReader)
+		if !ok {
+			p.end("unsupported", "json.Decoder over an unmodelled reader")
+		}
+		// a Decoder decodes the FIRST JSON value of the stream and leaves the rest unread
+		p.stubs["json.firstValueOnly"] = termTrue
+		r := in.intr["encoding/json.Unmarshal"](in, p, fr, []Val{br.data, a[1]}, s)
+		delete(p.stubs, "json.firstValueOnly")
+		return r
+	}
 	I["encoding/json.Unmarshal"] = func(in *Interp, p *Path, fr *Frame, a []Val, s ssa.CallInstruction) Val {
 		data, ok := concBytes(p, in, a[0])
 		if !ok {
@@ -251,6 +276,11 @@ func registerHTTPModels(in *Interp) {
 			if !p.branch(asTerm(p.stubs["final.parses"])) {
 				return fail
 			}
+			if tr, ok := p.stubs["final.trailing"].(*Term); ok && p.stubs["json.firstValueOnly"] == nil {
+				if p.branch(tr) {
+					return fail // json.Unmarshal rejects data after the top-level value
+				}
+			}
 			res := zero(et).(*StructVal)
 			res.f[fieldIndex(et, "Verdict")] = p.stubs["final.verdict"]
 			res.f[fieldIndex(et, "Evidence")] = p.stubs["final.evidence"]
@@ -261,7 +291,70 @@ func registerHTTPModels(in *Interp) {
 	}
 }
 
+func auditStubs() map[string]Intrinsic {
+	return map[string]Intrinsic{
+		cliPkg + ".SandboxExec": func(in *Interp, p *Path, fr *Frame, a []Val, s ssa.CallInstruction) Val {
+			if p.branch(asTerm(p.stubs["audit.sandboxFails"])) {
+				return in.mkErr(concStr("sandbox failed"), nil, "sandbox")
+			}
+			return IfaceVal{}
+		},
+		"encoding/json.Unmarshal": func(in *Interp, p *Path, fr *Frame, a []Val, s ssa.CallInstruction) Val {
+			dst := a[1].(IfaceVal)
+			et := derefType(dst.t)
+			if !strings.HasSuffix(et.String(), "DiffOutput") {
+				p.end("unsupported", "json.Unmarshal into "+et.String()+" in the audit harness")
+			}
+			if !p.branch(asTerm(p.stubs["audit.parses"])) {
+				return in.mkErr(concStr("invalid character"), nil, "json")
+			}
+			res := zero(et).(*StructVal)
+			fi := fieldIndex(et, "Functions")
+			ft := et.Underlying().(*types.Struct).Field(fi).Type().Underlying().(*types.Slice).Elem()
+			var fns []Val
+			for k, key := range []string{"audit.risk0", "audit.risk1"} {
+				f := zero(ft).(*StructVal)
+				f.f[fieldIndex(ft, "Function")] = concStr(fmt.Sprintf("f%d", k))
+				f.f[fieldIndex(ft, "RiskScore")] = p.stubs[key]
+				f.f[fieldIndex(ft, "AddedOps")] = strSliceVal([]StringVal{concStr("call")})
+				fns = append(fns, f)
+			}
+			res.f[fi] = newSlice(fns)
+			dst.v.(*Pointer).store(res)
+			return IfaceVal{}
+		},
+		llmPkg + ".CallLLM": func(in *Interp, p *Path, fr *Frame, a []Val, s ssa.CallInstruction) Val {
+			rt := s.Common().StaticCallee().Signature.Results().At(0).Type()
+			res := zero(rt).(*StructVal)
+			if p.branch(asTerm(p.stubs["audit.callFails"])) {
+				res.f[0] = concStr("ERROR")
+				return TupleVal{res, in.mkErr(concStr("provider failed"), nil, "provider")}
+			}
+			v := p.stubs["audit.verdict"].(StringVal)
+			// contract of CallLLM on success: the verdict's upper-casing is on the whitelist
+			up := p.strToUpper(v)
+			p.assumeAllASCII(v)
+			p.assume(p.orN(p.strEq(up, concStr("MATCH")), p.strEq(up, concStr("SUSPICIOUS")), p.strEq(up, concStr("LIE"))))
+			if r, _ := p.query(false); r == "unsat" {
+				p.end("infeasible", "verdict outside CallLLM's contract")
+			}
+			res.f[0] = v
+			res.f[1] = concStr("evidence")
+			return TupleVal{res, IfaceVal{}}
+		},
+	}
+}
+
 func init() {
+	vxExtra["vxAuditScenario"] = func(in *Interp, p *Path, fr *Frame, a []Val, s ssa.CallInstruction) Val {
+		p.stubs["audit.sandboxFails"], p.stubs["audit.parses"] = a[0], a[1]
+		p.stubs["audit.risk0"], p.stubs["audit.risk1"] = a[2], a[3]
+		p.stubs["audit.callFails"], p.stubs["audit.verdict"] = a[4], a[5]
+		return nil
+	}
+	vxExtra["vxVerdictBytes"] = func(in *Interp, p *Path, fr *Frame, a []Val, s ssa.CallInstruction) Val {
+		return byteClass(p, a[0].(StringVal), func(b *Term) *Term { return inRange(p, b, 0x20, 0x7e) })
+	}
 	checks["C13"] = func(c *CheckCtx) {
 		params := map[string]int64{"exchanges": 8, "verdictlen": 6, "evidencelen": 15, "msglen": 4}
 		if c.Tier == "thorough" {
@@ -294,12 +387,13 @@ func init() {
 			{Name: "VerifC13_RetryLoop", Pkg: llmPkg, Solver: "z3", Params: params, Stubs: stubs, MaxPaths: 400000},
 			{Name: "VerifC13_CallLLM", Pkg: llmPkg, Solver: "z3", Params: params, Stubs: contract, MaxPaths: 400000},
 			{Name: "VerifC13_Envelope", Pkg: llmPkg, Solver: "z3", Params: params, Stubs: stubs},
+			{Name: "VerifC13_RunAudit", Pkg: cliPkg, Solver: "z3", Stubs: auditStubs(), EngineReplay: true},
 		}
 		c.Assumptions = append(c.Assumptions,
 			"provider = a script of 8 HTTP exchanges (2 calls x 4 attempts), each with symbolic transport failure, truncated body, status in [100,999], decodability, 0-2 items with roles from {assistant,model,user,developer} and content forms {string, parts, neither}; answers: sentinel parses?/safe?, final parses?/verdict (<=6, thorough 10 printable ASCII bytes)/evidence (<=15, thorough 18)",
 			"net/http, encoding/json, context, regexp are stubbed: json.Unmarshal fills the target from the script; cleanJSONMarkdown is the identity (fence stripping not claimed); json.MarshalIndent is an injective tag of the commit message (escaping is the standard library's)",
 			"OpenAI-style provider path only (the Gemini client goes through the genai SDK and is not encoded); commit messages <= 4 (8) ASCII bytes, so the 2000-rune truncation is outside the bound",
-			"the exit-status mapping of RunAudit is covered by VerifC13_RunAudit when present")
-		c.runModeT([]string{"internal/llm"}, cfgs)
+			"cli.RunAudit's exit-status switch is executed with SandboxExec, the JSON decoding of the diff output (two functions with symbolic risk scores) and llm.CallLLM replaced by stubs/contract; it cannot be replayed natively (real sandbox and provider) and is confirmed by concrete re-execution of the SSA")
+		c.runModeT([]string{"internal/llm", "internal/cli"}, cfgs)
 	}
 }
